@@ -51,13 +51,24 @@ func VerifRun_C17j() {
 	}
 	_ = l.Initialized(ctx, InitializedParams{})
 	_ = l.ChangeConfiguration(ctx, c17fParams(nil, nil)) // (the first notification only records settings)
-	on := true
+	// optionally the user is in the middle of typing in the clean file when the settings change: the buffer
+	// has a syntax error that is on screen (and nothing about this file is saved)
+	typing := verifBool("typingInTheCleanFile")
+	if typing {
+		ul := lsp.DocumentURI("file://" + lib)
+		_ = l.TextDocumentDidOpen(ctx, lsp.DidOpenTextDocumentParams{TextDocument: lsp.TextDocumentItem{URI: ul, Text: "local t = math.floor(1.5)\nprint(t, string.format(\"x\"), os.time(), table.concat({}), unpack({1}), bit)\n"}})
+		_ = l.TextDocumentDidChange(ctx, lsp.DidChangeTextDocumentParams{
+			TextDocument:   lsp.VersionedTextDocumentIdentifier{TextDocumentIdentifier: lsp.TextDocumentIdentifier{URI: ul}},
+			ContentChanges: []lsp.TextDocumentContentChangeEvent{{Text: "local t = \n"}}})
+	}
+	on, master := true, true
 	for k := 0; k < verifParam("CHANGES"); k++ {
 		vs := c17fParams(nil, nil)
 		vs.Settings.Luahelper.WarnParam.AllEnable = verifBool("allEnable")
 		vs.Settings.Luahelper.WarnParam.CheckLocalNoUse = verifBool("localNoUse")
 		_ = l.ChangeConfiguration(ctx, vs)
 		on = vs.Settings.Luahelper.WarnParam.AllEnable && vs.Settings.Luahelper.WarnParam.CheckLocalNoUse
+		master = vs.Settings.Luahelper.WarnParam.AllEnable
 	}
 	verifReach("configured")
 	ua, ub := "file://"+a, "file://"+b
@@ -69,7 +80,12 @@ func VerifRun_C17j() {
 		if on {
 			wa, wb = na, nb
 		}
-		if c08view["file://"+lib] != "" {
+		if typing {
+			if shown := c08view["file://"+lib] != ""; shown != master {
+				verifObserve("view", when+" [lib: "+c08view["file://"+lib]+"]")
+				verifViolation("", "the syntax error of an unsaved buffer is not shown exactly when the master switch is on, "+when)
+			}
+		} else if c08view["file://"+lib] != "" {
 			verifObserve("view", when+" [lib: "+c08view["file://"+lib]+"]")
 			verifViolation("", "a file that only uses the standard library shows diagnostics "+when)
 		}
